@@ -1,7 +1,7 @@
 \* liveness on the fair specification (no state constraint)
 CONSTANTS
   Backends = {"native", "rustls"}
-  Shapes = {"t13", "t12"}
+  Shapes = {"t13"}
   Bufferings = {TRUE, FALSE}
   Payloads = {1}
   Inits = {"c"}
